@@ -11,12 +11,19 @@ import (
 
 // lifecycle renders one session: rec, n events, cd, with the login inserted at
 // position pos (0 = before the LOGIN record ... n+2 = after the CD).
-func lifecycle(k, n, pos int) []HOp {
+func lifecycle(k, n, pos int) []HOp { return lifecyclePost(k, n, 0, pos) }
+
+// lifecyclePost is lifecycle with `post` further records of the session after
+// its CRED_DISP (the login position then ranges up to n+2+post).
+func lifecyclePost(k, n, post, pos int) []HOp {
 	q := []HOp{{Kind: opRec, K: k}}
 	for e := 0; e < n; e++ {
 		q = append(q, HOp{Kind: opEv, K: k, Typ: evTypeNames[(e+k)%len(evTypeNames)]})
 	}
 	q = append(q, HOp{Kind: opCD, K: k})
+	for e := 0; e < post; e++ {
+		q = append(q, HOp{Kind: opEv, K: k, Typ: "USER_END"})
+	}
 	out := append([]HOp{}, q[:pos]...)
 	out = append(out, HOp{Kind: opLogin, K: k})
 	return append(out, q[pos:]...)
@@ -115,45 +122,7 @@ func checkC09(r *vlib.Run) int {
 			reportFindings(r, st, "C09", fs, plan, ops, "raw-reuse")
 		}
 	}
-	// Exhaustive part: generation A (length 2..5, login at every position),
-	// then generation B (login at every position), 0..2 strays of A at every
-	// later position, one cleanup (none/all) at every position.
-	type job struct {
-		plan Plan
-		ops  []HOp
-	}
-	var jobs []job
-	maxA, maxB := 3, 2
-	for nA := 0; nA <= maxA; nA++ {
-		for pA := 0; pA <= nA+2; pA++ {
-			a := lifecycle(0, nA, pA)
-			loginPosCovered.Add(fmt.Sprintf("A:%d/%d", pA, nA+2))
-			for nB := 0; nB <= maxB; nB++ {
-				for pB := 0; pB <= nB+2; pB++ {
-					b := lifecycle(1, nB, pB)
-					stray := HOp{Kind: opEv, K: 0, Typ: "USER_END"}
-					var bvars [][]HOp
-					bvars = append(bvars, b)
-					for s1 := 0; s1 <= len(b); s1++ {
-						bvars = append(bvars, insertAt(b, stray, s1))
-						for s2 := s1; s2 <= len(b); s2++ {
-							bvars = append(bvars, insertAt(b, stray, s1, s2))
-						}
-					}
-					for _, bv := range bvars {
-						base := append(append([]HOp{}, a...), bv...)
-						jobs = append(jobs, job{reusePlan(2, 0), base})
-						for c := 0; c <= len(base); c++ {
-							jobs = append(jobs, job{reusePlan(2, 0), insertAt(base, HOp{Kind: opClean, Cut: cutNone}, c)})
-							if safeForCutAll(base, c) {
-								jobs = append(jobs, job{reusePlan(2, 0), insertAt(base, HOp{Kind: opClean, Cut: cutAll}, c)})
-							}
-						}
-					}
-				}
-			}
-		}
-	}
+	jobs := reuseJobs(loginPosCovered)
 	nExh := len(jobs)
 	// Three generations and unrelated sessions: seeded random.
 	nRand := r.Pick(20000, 1500000)
@@ -212,6 +181,56 @@ func checkC09(r *vlib.Run) int {
 	return r.Finish(int(evals), st.shapes.Len(), "PID-reuse histories: first session of length 2-5 with its login at every position (incl. after the CRED_DISP), then the next session on the same PID with its login at every position, 0-2 stray events of the ended session at every later position, one cleanup at every position; plus seeded random histories with three generations and unrelated sessions, at the tracker API and through Auditd.Read; distinct = distinct operation-kind sequences")
 }
 
+type reuseJob struct {
+	plan Plan
+	ops  []HOp
+}
+
+// reuseJobs enumerates the PID-reuse histories (see checkC09's rule text).
+func reuseJobs(loginPosCovered *vlib.Distinct) []reuseJob {
+	// Exhaustive part: generation A (length 2..5, login at every position),
+	// then generation B (login at every position), 0..2 strays of A at every
+	// later position, one cleanup (none/all) at every position.
+	var jobs []reuseJob
+	maxA, maxB := 3, 2
+	for nA := 0; nA <= maxA; nA++ {
+		for postA := 0; postA <= 2; postA++ {
+			for pA := 0; pA <= nA+2+postA; pA++ {
+				if postA > 0 && pA < nA+2 {
+					continue // records after the CRED_DISP only matter when they are still held: login after the CRED_DISP
+				}
+				a := lifecyclePost(0, nA, postA, pA)
+				loginPosCovered.Add(fmt.Sprintf("A:%d/%d+%d", pA, nA+2, postA))
+				for nB := 0; nB <= maxB; nB++ {
+					for pB := 0; pB <= nB+2; pB++ {
+						b := lifecycle(1, nB, pB)
+						stray := HOp{Kind: opEv, K: 0, Typ: "USER_END"}
+						var bvars [][]HOp
+						bvars = append(bvars, b)
+						for s1 := 0; s1 <= len(b); s1++ {
+							bvars = append(bvars, insertAt(b, stray, s1))
+							for s2 := s1; s2 <= len(b); s2++ {
+								bvars = append(bvars, insertAt(b, stray, s1, s2))
+							}
+						}
+						for _, bv := range bvars {
+							base := append(append([]HOp{}, a...), bv...)
+							jobs = append(jobs, reuseJob{reusePlan(2, 0), base})
+							for c := 0; c <= len(base); c++ {
+								jobs = append(jobs, reuseJob{reusePlan(2, 0), insertAt(base, HOp{Kind: opClean, Cut: cutNone}, c)})
+								if safeForCutAll(base, c) {
+									jobs = append(jobs, reuseJob{reusePlan(2, 0), insertAt(base, HOp{Kind: opClean, Cut: cutAll}, c)})
+								}
+							}
+						}
+					}
+				}
+			}
+		}
+	}
+	return jobs
+}
+
 func randReuse(rng *vlib.Rng) (Plan, []HOp) {
 	gens := 2 + rng.Intn(2)
 	unrel := rng.Intn(3)
@@ -219,7 +238,11 @@ func randReuse(rng *vlib.Rng) (Plan, []HOp) {
 	var main []HOp
 	for g := 0; g < gens; g++ {
 		n := rng.Intn(5)
-		lc := lifecycle(g, n, rng.Intn(n+3))
+		post := 0
+		if rng.Chance(30) {
+			post = 1 + rng.Intn(2)
+		}
+		lc := lifecyclePost(g, n, post, rng.Intn(n+3+post))
 		// strays of earlier generations
 		for s := rng.Intn(3); s > 0 && g > 0; s-- {
 			lc = insertAt(lc, HOp{Kind: opEv, K: rng.Intn(g), Typ: vlib.PickOne(rng, evTypeNames)}, rng.Intn(len(lc)+1))
